@@ -23,7 +23,7 @@ from fractions import Fraction
 import itertools
 
 _TABLE = {}
-BINDERS = ('sum', 'bmax', 'bmin', 'bag', 'forall')
+BINDERS = ('sum', 'bmax', 'bmin', 'bag', 'forall', 'prod')
 _COUNTER = itertools.count()
 
 
@@ -548,6 +548,12 @@ def big(op, bv, lo, hi, body):
             return TRUE
         if lo.op == 'const' and hi.op == 'const' and hi.args[0] - lo.args[0] <= 4:
             return and_(*[subst(body, {bv: const(lo.args[0] + k, 'I')}) for k in range(_max0(hi.args[0] - lo.args[0]))])
+    if op == 'prod':
+        if body.op == 'const' and body.args[0] == 1:
+            return body
+        if lo.op == 'const' and hi.op == 'const' and 0 <= hi.args[0] - lo.args[0] <= 4:
+            items = [subst(body, {bv: const(lo.args[0] + k, 'I')}) for k in range(hi.args[0] - lo.args[0])]
+            return mul(*items) if items else const(1, body.sort)
     if lo.op == 'const' and hi.op == 'const' and op in ('sum', 'bmax', 'bmin'):
         n = hi.args[0] - lo.args[0]
         if 0 <= n <= 4:
@@ -559,7 +565,7 @@ def big(op, bv, lo, hi, body):
                 for it in items[1:]:
                     acc = tmax(acc, it) if op == 'bmax' else tmin(acc, it)
                 return acc
-    if hi is add(lo, IONE) and op in ('sum', 'bmax', 'bmin', 'forall'):
+    if hi is add(lo, IONE) and op in ('sum', 'bmax', 'bmin', 'forall', 'prod'):
         return subst(body, {bv: lo})
     if op == 'sum' and body.op == 'const' and body.args[0] == 0:
         return body
@@ -776,3 +782,46 @@ def accesses(t, guard=TRUE):
 
 def size(t):
     return sum(1 for _ in subterms(t))
+
+
+def partial_ops(t, guard=TRUE):
+    """Guard-aware collection of the definedness conditions of the partial operations in t:
+    yields (guard, kind, condition).  A condition inside an ite branch carries the branch condition,
+    inside a binder the range - so the unselected branch of a `where` may be undefined."""
+    out = []
+    seen = set()
+
+    def go(u, g):
+        key = (u, g)
+        if key in seen:
+            return
+        seen.add(key)
+        op = u.op
+        if op in ('const', 'var'):
+            return
+        if op == 'ite':
+            c, a, b = u.args
+            go(c, g)
+            go(a, and_(g, c))
+            go(b, and_(g, not_(c)))
+            return
+        if op in BINDERS:
+            bv, lo, hi, body = u.args
+            go(lo, g)
+            go(hi, g)
+            nb = fresh('q', 'I')
+            go(subst(body, {bv: nb}), and_(g, le(lo, nb), lt(nb, hi)))
+            return
+        if op == 'div':
+            out.append((g, 'division', ne(u.args[1], const(0, u.args[1].sort))))
+        elif op == 'app' and u.args[0] == 'sqrt':
+            out.append((g, 'sqrt', ge(u.args[1], ZERO)))
+        elif op == 'app' and u.args[0] == 'log':
+            out.append((g, 'log', gt(u.args[1], ZERO)))
+        elif op == 'pow' and not (u.args[1].op == 'const' and u.args[1].sort == 'I'):
+            out.append((g, 'power', ge(toreal(u.args[0]), ZERO)))
+        for a in u.args:
+            if isinstance(a, T):
+                go(a, g)
+    go(t, guard)
+    return out
